@@ -41,8 +41,10 @@ theorem liftX_eq_parseXonly (b : Bytes) (h0 : beToNat b ≠ 0) : liftX (beToNat 
       rw [if_pos hc]
       rw [if_neg (show ¬ ((beToNat b ^ 3 + 7) % P ≠ y * y % P) from fun h => h hc'.symm)]
       by_cases hpar : y % 2 = 0
-      · rw [if_pos hpar, if_neg (show ¬ y % 2 = 1 by omega), mkPoint_of_valid hv]
-      · rw [if_neg hpar, if_pos (show y % 2 = 1 by omega), mkPoint_of_valid (neg_valid_aff hv)]
+      · rw [if_pos hpar]; simp only []
+        rw [if_neg (show ¬ y % 2 = 1 by omega), mkPoint_of_valid hv]
+      · rw [if_neg hpar]; simp only []
+        rw [if_pos (show y % 2 = 1 by omega), mkPoint_of_valid (neg_valid_aff hv)]
     · have hc' : ¬ y * y % P = (beToNat b ^ 3 + 7) % P := hc
       rw [if_neg hc]
       rw [if_pos (show (beToNat b ^ 3 + 7) % P ≠ y * y % P from fun h => hc' h.symm)]
@@ -97,12 +99,12 @@ def specCore (sha256 : Bytes → Bytes) (Pk : Pt) (m : Bytes) (r s : ℕ) : Bool
 
 theorem spec_verify_unfold (sha256 : Bytes → Bytes) (pk m sig : Bytes) :
     Spec.BIP340.verify sha256 pk m sig =
-      match liftX (int pk) with
+      match liftX (beToNat pk) with
       | none => false
       | some Pk =>
-        if int (sig.take 32) ≥ P then false else
-        if int ((sig.drop 32).take 32) ≥ N then false else
-        specCore sha256 Pk m (int (sig.take 32)) (int ((sig.drop 32).take 32)) := rfl
+        if beToNat (sig.take 32) ≥ P then false else
+        if beToNat ((sig.drop 32).take 32) ≥ N then false else
+        specCore sha256 Pk m (beToNat (sig.take 32)) (beToNat ((sig.drop 32).take 32)) := rfl
 
 theorem smul_N_sub (e : ℕ) (he : e < N) (Q : Pt) : smul ((N - e : ℕ) : ℤ) Q = smul (-(e : ℤ)) Q := by
   rw [Nat.cast_sub he.le, ← smul_add_mul_N (-(e : ℤ)) 1 Q]
